@@ -995,32 +995,42 @@ func (node *Node) checkTxDelays(ctx context.Context) {
 		}
 
 		for _, txid := range txids {
-			txState, err := internalStorage.FetchTxState(ctx, node.store, txid)
-			if err != nil {
-				logger.Error(ctx, "SpyNodeFailed fetch tx state : %s", err)
-				continue
-			}
-
-			if txState.State.UnSafe || txState.State.Cancelled {
-				continue
-			}
-
-			txState.State.Safe = true
-
-			if err := internalStorage.SaveTxState(ctx, node.store, txState); err != nil {
-				logger.Error(ctx, "SpyNodeFailed save tx state : %s", err)
-				continue
-			}
-
-			// Send update
-			update := &client.TxUpdate{
-				TxID:  txid,
-				State: txState.State,
-			}
-			for _, handler := range node.handlers {
-				handler.HandleTxUpdate(ctx, update)
-			}
+			node.markTxSafe(ctx, txid)
 		}
+	}
+}
+
+// markTxSafe marks the tx as safe and notifies the handlers, unless it has been marked unsafe.
+func (node *Node) markTxSafe(ctx context.Context, txid bitcoin.Hash32) {
+	// The tx and block processors also fetch, modify and save tx states, so don't interleave with
+	// them or an unsafe flag saved between the fetch and the save here would be overwritten.
+	node.blockLock.Lock()
+	defer node.blockLock.Unlock()
+
+	txState, err := internalStorage.FetchTxState(ctx, node.store, txid)
+	if err != nil {
+		logger.Error(ctx, "SpyNodeFailed fetch tx state : %s", err)
+		return
+	}
+
+	if txState.State.UnSafe || txState.State.Cancelled {
+		return
+	}
+
+	txState.State.Safe = true
+
+	if err := internalStorage.SaveTxState(ctx, node.store, txState); err != nil {
+		logger.Error(ctx, "SpyNodeFailed save tx state : %s", err)
+		return
+	}
+
+	// Send update
+	update := &client.TxUpdate{
+		TxID:  txid,
+		State: txState.State,
+	}
+	for _, handler := range node.handlers {
+		handler.HandleTxUpdate(ctx, update)
 	}
 }
 
